@@ -100,7 +100,7 @@ Fired == SeqToSet(Ev.fired)
 MonFault(la, st, known, honest) ==
     /\ Check("C07", "NoFalseSuccess", la.v = "Accept" => Ev.shape.readback /\ Ev.retcp = stored'[la.log] /\ la.ret = "new")
     /\ Check("C07", "FailedReadIsNotFirstUse",
-             (Fired \cap {"GetLatest", "query", "WriteOps", "begin"}) # {} => la.v # "Accept" /\ Ev.unchanged)
+             (Fired \cap {"GetLatest", "query", "next", "WriteOps", "begin"}) # {} => la.v # "Accept" /\ Ev.unchanged)
     /\ Check("C07", "FailureHasNoEffect", (Fired \ {"Close", "rollback"}) # {} /\ la.v # "Accept" => Ev.unchanged /\ la.ret \in {"nil", "prev"})
     /\ Check("C07", "NeverRegresses", AppendOnlyStep(stored, stored'))
     /\ Check("C07", "NoLeak", Ev.opentx = 0 /\ Ev.inuse = 0 /\ la.v # "Hang")
@@ -136,8 +136,12 @@ MonUpdate ==
 
 MonGet ==
     /\ Check("C16", "ReadExact", ReadExactStep(stored, stored', last'))
+    \* C07: a read never leaves a transaction or the connection behind, and only fails when a failure was injected
+    /\ (Ev.frun => /\ Check("C07", "ReadLeavesNothingOpen", Ev.opentx = 0 /\ Ev.inuse = 0)
+                    /\ Check("C07", "ReadFailsOnlyOnInjectedFailure", Ev.failed => Ev.fired # <<>>))
     /\ Check("C16", "ReadBytes",
-             /\ Ev.exact
+             \/ Ev.failed
+             \/ /\ Ev.exact
              /\ LET has == Ev.log \in Logs /\ stored[Ev.log] # None
                 IN /\ (has => Ev.client = "bytes" /\ Ev.status \in {0, 200})
                    /\ (~has => Ev.client = "notexist" /\ Ev.status \in {0, 404}))
